@@ -124,6 +124,11 @@ fn units() -> Vec<(&'static str, &'static str, &'static str)> {
             "{ let app = ::entrait::Impl::new(App); <::entrait::Impl<App> as IRepo>::iget(&app, 5) }",
         ),
         (
+            "inversion_dyn_borrow",
+            "#[::entrait::entrait(BRepoImpl, delegate_by = Borrow)]\npub trait @T@ { fn bdget(&self, x: u64) -> u64; }\npub struct MyBRepo;\n#[::entrait::entrait(ref)]\nimpl BRepoImpl for MyBRepo {\n    pub fn bdget(_deps: &impl ::core::any::Any, x: u64) -> u64 { x + 22 }\n}\nimpl ::core::borrow::Borrow<dyn BRepoImpl<App>> for App { fn borrow(&self) -> &(dyn BRepoImpl<App> + 'static) { &MyBRepo } }\n",
+            "{ let app = ::entrait::Impl::new(App); <::entrait::Impl<App> as @T@>::bdget(&app, 5) }",
+        ),
+        (
             "inversion_dyn_async_trait",
             "#[::entrait::entrait(ADRepoImpl, delegate_by = ref)]\n#[::async_trait::async_trait]\npub trait @T@ { async fn adget(&self, x: u64) -> u64; }\npub struct MyADRepo;\n#[::entrait::entrait(ref)]\n#[::async_trait::async_trait]\nimpl ADRepoImpl for MyADRepo {\n    pub async fn adget(_deps: &impl ::core::any::Any, x: u64) -> u64 { x + 16 }\n}\nimpl ::core::convert::AsRef<dyn ADRepoImpl<App> + ::core::marker::Sync> for App { fn as_ref(&self) -> &(dyn ADRepoImpl<App> + ::core::marker::Sync + 'static) { &MyADRepo } }\n",
             "{ let app = ::entrait::Impl::new(App); crate::rt::block_on(<::entrait::Impl<App> as @T@>::adget(&app, 5)) }",
@@ -259,11 +264,11 @@ fn no_std_src() -> String {
 pub const TAPE_LEN: usize = 24;
 
 pub fn run(ctx: &mut Ctx) {
-    ctx.rule = "cases = one of 16 usage units (fn with generic / async / by-value / no_deps+?Send / concrete deps, module, leaf trait static, ref, Borrow, ref+async_trait, dependency inversion \
-                static, ref, ref+async_trait; fn / module / impl block whose dependency bound is the generated trait), invoked by absolute path in a module without imports, x a generated subset of local items shadowing {Impl, Sync, Send, Future, AsRef, Borrow, Box, \
+    ctx.rule = "cases = one of 17 usage units (fn with generic / async / by-value / no_deps+?Send / concrete deps, module, leaf trait static, ref, Borrow, ref+async_trait, dependency inversion \
+                static, ref, Borrow, ref+async_trait; fn / module / impl block whose dependency bound is the generated trait), invoked by absolute path in a module without imports, x a generated subset of local items shadowing {Impl, Sync, Send, Future, AsRef, Borrow, Box, \
                 Option, core, entrait, std, Sized, Output, Target, T, convert, marker, future, unimock, mockall} (structs, traits, modules) x optionally naming the generated trait Send/Sync/Future/\
                 Impl/AsRef/Sized; the hostile module must compile and compute the same value as the benign one; plus one #![no_std] crate with every unit; non-trivial = >=1 shadow or a hostile \
-                trait name; distinct = distinct program text. Deterministic part: every unit x every hostile trait name and every unit x every single shadowing item; random part: subsets"
+                trait name; distinct = distinct program text. E1 leg: 60 000 (thorough 1 000 000) generated invocations of every mode; in each accepted expansion no name of {core, std, alloc, entrait, mockall, unimock, async_trait} may start a path and no item name of {Impl, Send, Sync, Future, AsRef, Borrow, Deref, Box, Pin, Sized, Option, Result, Unimock, PhantomData, ..} may stand at a path start unless the user's own tokens have it in that position. Deterministic part: every unit x every hostile trait name and every unit x every single shadowing item; random part: subsets"
         .into();
     let open = crate::ev::open_findings("C19");
     let excl = open.iter().any(|f| f.key == "bare-sync-send-idents");
@@ -278,6 +283,10 @@ pub fn run(ctx: &mut Ctx) {
         if run_single("c19-probe", probe).is_err() {
             ctx.known(&format!("key={} {}", f.key, f.what));
         }
+    }
+    // E1: no watched name is referred to relatively by generated tokens
+    if !e1_scan_leg(ctx) {
+        return;
     }
     ctx.extra.insert("excluded_by_construction".into(), json!({"shadowing_Sync_or_Send": excl, "blanket_trait_with_as_ref_borrow_into_inner_methods": excl_blanket}));
     // no_std crate
@@ -347,6 +356,14 @@ pub fn run(ctx: &mut Ctx) {
 
 pub fn replay(ctx: &mut Ctx, v: &Value) {
     ctx.count_eval();
+    if super::s(v, "kind") == "scan" {
+        match scan_invocation(&super::s(v, "macro"), &super::s(v, "attr"), &super::s(v, "item")) {
+            Err(e) => crate::ev::inconclusive(&e),
+            Ok(Some(extra)) if !extra.is_empty() => ctx.violation(&format!("the expansion refers to {:?} through a relative path / bare identifier", extra), v),
+            _ => {}
+        }
+        return;
+    }
     if super::s(v, "kind") == "no_std" {
         let mut b = Batch::new("c19-nostd-replay", Opts { feature_unimock: false, members: 1, no_std: true, check_only: true, ..Default::default() });
         b.add("c00000", super::s(v, "src"));
@@ -365,4 +382,83 @@ pub fn replay(ctx: &mut Ctx, v: &Value) {
             }
         }
     }
+}
+
+// ---------- E1 leg: every name the macro itself writes is reached through an absolute path ----------
+
+/// crate-like names: a reference is `name ::` ...
+const WATCH_CRATES: [&str; 7] = ["core", "std", "alloc", "entrait", "mockall", "unimock", "async_trait"];
+/// item names the macro refers to (or might): a reference is the bare identifier in a path-start position
+const WATCH_ITEMS: [&str; 18] =
+    ["Impl", "Send", "Sync", "Future", "AsRef", "Borrow", "BorrowMut", "Deref", "Box", "Pin", "Sized", "Option", "Result", "Unimock", "PhantomData", "Unpin", "Default", "Into"];
+
+/// identifiers of the watch lists that occur at the *start* of a path (not after `::`, not as a method/field after `.`,
+/// not as a lifetime after `'`) anywhere in the stream; for crate-like names only when `::` follows
+fn relative_refs(toks: &[crate::tok::Tok], out: &mut std::collections::BTreeSet<String>) {
+    use crate::tok::Tok;
+    for (i, t) in toks.iter().enumerate() {
+        match t {
+            Tok::Group(_, inner) => relative_refs(inner, out),
+            Tok::Ident(x) => {
+                let after_path_sep = i >= 2 && toks[i - 1] == Tok::Punct(':') && toks[i - 2] == Tok::Punct(':');
+                let after_dot_or_tick = i >= 1 && (toks[i - 1] == Tok::Punct('.') || toks[i - 1] == Tok::Punct('\''));
+                if after_path_sep || after_dot_or_tick {
+                    continue;
+                }
+                let followed_by_sep = toks.get(i + 1) == Some(&Tok::Punct(':')) && toks.get(i + 2) == Some(&Tok::Punct(':'));
+                if WATCH_CRATES.contains(&x.as_str()) {
+                    if followed_by_sep {
+                        out.insert(x.clone());
+                    }
+                } else if WATCH_ITEMS.contains(&x.as_str()) {
+                    // `name: Type` (a field / parameter called like the item) is not a reference
+                    let is_binding = toks.get(i + 1) == Some(&Tok::Punct(':')) && !followed_by_sep;
+                    if !is_binding {
+                        out.insert(x.clone());
+                    }
+                }
+            }
+            _ => {}
+        }
+    }
+}
+
+/// Some(names) if the expansion refers to watched names relatively that the user's own tokens did not mention relatively
+pub fn scan_invocation(macro_name: &str, attr: &str, item: &str) -> Result<Option<Vec<String>>, String> {
+    let out = match crate::e1::outcome(macro_name, attr, item).map_err(|e| format!("HARNESS: {e}"))? {
+        crate::e1::Outcome::Accepted(t, _) => t,
+        _ => return Ok(None),
+    };
+    let mut user = std::collections::BTreeSet::new();
+    relative_refs(&crate::tok::toks_of_src(attr).map_err(|e| format!("HARNESS: {e}"))?, &mut user);
+    relative_refs(&crate::tok::toks_of_src(item).map_err(|e| format!("HARNESS: {e}"))?, &mut user);
+    let mut gen = std::collections::BTreeSet::new();
+    relative_refs(&out, &mut gen);
+    let extra: Vec<String> = gen.difference(&user).cloned().collect();
+    Ok(if extra.is_empty() { Some(vec![]) } else { Some(extra) })
+}
+
+pub fn e1_scan_leg(ctx: &mut Ctx) -> bool {
+    let n = ctx.n(60_000, 1_000_000);
+    crate::drive::run_tapes_par(ctx, 1950, n, 160, |ctx, tape| {
+        let mut t = Tape::new(tape);
+        let inv = super::common::gen_invocation(&mut t);
+        ctx.count_eval();
+        match scan_invocation(&inv.macro_name, &inv.attr, &inv.item) {
+            Err(e) => crate::ev::inconclusive(&e),
+            Ok(None) => {
+                ctx.class("scan:not_accepted");
+                Ok(())
+            }
+            Ok(Some(extra)) if extra.is_empty() => {
+                ctx.class("scan:only_absolute_references");
+                ctx.nontrivial(&(&inv.macro_name, &inv.attr, &inv.item));
+                Ok(())
+            }
+            Ok(Some(extra)) => Err(crate::drive::Fail::new(
+                format!("the expansion refers to {:?} through a relative path / bare identifier (the invoking scope can capture it): #[{}({})]", extra, inv.macro_name, inv.attr),
+                json!({"engine": "E1", "kind": "scan", "macro": inv.macro_name, "attr": inv.attr, "item": inv.item}),
+            )),
+        }
+    })
 }
